@@ -236,6 +236,11 @@ def run(ck):
     from .c18 import ck_alias as _alias
     _c16.r3c_resolution_table(_alias(ck, "C09-R8"))
 
+    # ---- R9: every record of the file map is written back at the end of each invocation (C05-R6): a change that is only kept in
+    # memory (a mode set by a patch without hunks, say) is lost at the next cut
+    from . import c05 as _c05
+    _c05.r6_every_file_saved(ck, rule="C09-R9")
+
     # ---- R3 ------------------------------------------------------------------------------------------
     bad, abort_reach = effect_tables(ck)
     br, fi = noninterf.analyse_function(prog, cg, cmd_push, bad, abort_reach)
